@@ -69,3 +69,20 @@ prop(
     must_see=[("step_families_faulted", 40), ("abort-honest-err", 20)],
     watchdog_s={"quick": 1800, "thorough": 14400},
 )
+
+prop(
+    "C05",
+    level="fault_enumeration",
+    rule=("honest: row counts {0,1,2,3,4,5,6,31,32,33,100} x shards {1,2,3,5} x row types {BA32, BA64, hybrid report (BA112), aggregateable "
+          "report (BA32)} x assignment {round-robin, random, all-to-last, all-to-first} x {semi-honest, malicious} x executor; oracle = "
+          "multiset of reconstructed output rows over all shards equals the input multiset (duplicates included) and every row is a "
+          "consistent replicated sharing. faults (malicious): pass 1 inventories every MPC chunk of the shuffle; each fault run alters one "
+          "chunk of one sender, or one bit of one input share held by one helper; table messages (transfer_x_y, transfer_c) and held rows "
+          "must make an honest helper fail; other traffic must abort or leave the multiset unchanged. distinct = (type, shards, mode, "
+          "assignment, size) / (type, step family, sender, shards); non-trivial = outcome classified"),
+    assumptions=["only MPC (helper-to-helper) traffic is tampered with", "MAC tag forgery probability 2^-32 per run is ignored"],
+    shards={"quick": 16, "thorough": 16},
+    min_evaluations={"quick": 120, "thorough": 1500},
+    must_see=[("multiset_equal", 60), ("fault_abort", 20), ("shuffle_step_families_faulted", 7)],
+    watchdog_s={"quick": 1500, "thorough": 10800},
+)
